@@ -1,6 +1,7 @@
 import LentilVerif.Lemmas.Geometry
 import LentilVerif.Lemmas.GeometrySums
 import LentilVerif.Lemmas.GeometryShapes
+import LentilVerif.Lemmas.GeometryHex
 import Mathlib.Analysis.SpecialFunctions.Trigonometric.Basic
 /-! # C20 — array geometry helpers share one centre convention (index ⌊n/2⌋)
 
@@ -8,8 +9,9 @@ Property theorems only (helper lemmas live in `Lemmas/Geometry*.lean`). The inde
 specialisations), `util.subarray`, `helper.boundary_slice`, `helper.slice_offset` and the hex-grid tables are the
 *generated* kernel (`Gen.*`, re-translated from the source on every run); the array plumbing is `Model/Geometry.lean`.
 
-Not proved here (checked on the real code by the oracle of tools/harness/c20.py only): hexagonal segments are mutually
-non-overlapping for `seg_gap > 0`, clear of the array border, and of equal area up to edge sampling. -/
+Not proved here (checked on the real code by the oracle of tools/harness/c20.py only): hexagonal segments are clear of the array
+border and of equal area up to edge sampling. Non-overlap for `seg_gap > 0` is proved on the real-valued model
+(`hex_disjoint_pos_gap`); float rounding of the edge test is covered by the oracle only. -/
 namespace Lentil.C20
 open Lentil Finset
 variable {K : Type}
@@ -536,6 +538,42 @@ theorem kf_hex_gap0_shared_edge (half inner c : K) :
   · simp [hexSide]; linarith
 
 end Shapes
+
+/-- **segments do not overlap when the gap is positive** (judged on non-antialiased masks, both orientations): two segments
+drawn by `hex_segments` at distinct grid cells `a ≠ b` (cube coordinates, `q + r + s = 0`) never both contain a pixel.
+`hh` stands for `√3/2`: `inner = R·hh`, the centres are `hex_to_rc(cell, R + g/2)` with constants `√3 = 2·hh`, `√3/2 = hh`, `3/2`, and
+the edge normals are the tables of `hexagon_normal_tables`. Separating axis: along the normal `n` that sees the largest difference
+of cube coordinates the centres are `≥ 2·(R + g/2)·hh = 2·inner + g·hh` apart, while a common pixel would force `≤ 2·inner`. -/
+theorem hex_disjoint_pos_gap {K : Type} [Field K] [LinearOrder K] [IsStrictOrderedRing K]
+    (half hh R g : K) (sinT cosT : Nat → K) (n : Int) (a b : HexCell) (i j : Int) (rotate : Bool)
+    (hhpos : 0 < hh) (hR : 0 ≤ R) (hg : 0 < g)
+    (hT : if rotate then
+            (sinT 0 = 0 ∧ cosT 0 = 1 ∧ sinT 1 = hh ∧ cosT 1 = 1 / 2 ∧ sinT 2 = hh ∧ cosT 2 = -(1 / 2) ∧
+             sinT 3 = 0 ∧ cosT 3 = -1 ∧ sinT 4 = -hh ∧ cosT 4 = -(1 / 2) ∧ sinT 5 = -hh ∧ cosT 5 = 1 / 2)
+          else
+            (sinT 0 = 1 / 2 ∧ cosT 0 = hh ∧ sinT 1 = 1 ∧ cosT 1 = 0 ∧ sinT 2 = 1 / 2 ∧ cosT 2 = -hh ∧
+             sinT 3 = -(1 / 2) ∧ cosT 3 = -hh ∧ sinT 4 = -1 ∧ cosT 4 = 0 ∧ sinT 5 = -(1 / 2) ∧ cosT 5 = hh))
+    (ha : a.1 + a.2.1 + a.2.2 = 0) (hb : b.1 + b.2.1 + b.2.2 = 0) (hab : a ≠ b) :
+    ¬ (hexagonAt half (R * hh) sinT cosT n n (hexToRC (2 * hh) hh (3 / 2) a (R + g / 2) rotate).1
+          (hexToRC (2 * hh) hh (3 / 2) a (R + g / 2) rotate).2 false i j = 1 ∧
+       hexagonAt half (R * hh) sinT cosT n n (hexToRC (2 * hh) hh (3 / 2) b (R + g / 2) rotate).1
+          (hexToRC (2 * hh) hh (3 / 2) b (R + g / 2) rotate).2 false i j = 1) := by
+  cases rotate
+  · exact hex_disjoint_unrotated half hh R g sinT cosT n a b i j hhpos hR hg (by simpa using hT) ha hb hab
+  · exact hex_disjoint_rotated half hh R g sinT cosT n a b i j hhpos hR hg (by simpa using hT) ha hb hab
+
+/-- the edge-normal tables assumed by `hex_disjoint_pos_gap` are the sines and cosines `lentil.hexagon` evaluates, with
+`hh = √3/2`: `θₙ = n·π/3 + π/6` (unrotated) and `θₙ = n·π/3` (rotated) -/
+theorem hexagon_normal_tables :
+    (let s := fun n : ℕ => Real.sin ((n : ℝ) * Real.pi / 3 + Real.pi / 6)
+     let c := fun n : ℕ => Real.cos ((n : ℝ) * Real.pi / 3 + Real.pi / 6)
+     s 0 = 1 / 2 ∧ c 0 = √3 / 2 ∧ s 1 = 1 ∧ c 1 = 0 ∧ s 2 = 1 / 2 ∧ c 2 = -(√3 / 2) ∧
+     s 3 = -(1 / 2) ∧ c 3 = -(√3 / 2) ∧ s 4 = -1 ∧ c 4 = 0 ∧ s 5 = -(1 / 2) ∧ c 5 = √3 / 2) ∧
+    (let s := fun n : ℕ => Real.sin ((n : ℝ) * Real.pi / 3)
+     let c := fun n : ℕ => Real.cos ((n : ℝ) * Real.pi / 3)
+     s 0 = 0 ∧ c 0 = 1 ∧ s 1 = √3 / 2 ∧ c 1 = 1 / 2 ∧ s 2 = √3 / 2 ∧ c 2 = -(1 / 2) ∧
+     s 3 = 0 ∧ c 3 = -1 ∧ s 4 = -(√3 / 2) ∧ c 4 = -(1 / 2) ∧ s 5 = -(√3 / 2) ∧ c 5 = 1 / 2) :=
+  ⟨hexagon_table_unrotated, hexagon_table_rotated⟩
 
 /-- the edge normals `lentil.hexagon` actually uses, `θₙ = n·π/3 + φ` (φ = π/6, or 0 when rotated), satisfy the hypotheses of
 `hexagon_half_turn`: `sin θₙ₊₃ = −sin θₙ`, `cos θₙ₊₃ = −cos θₙ` -/
